@@ -152,6 +152,19 @@ Theorem C09_interpolate_reproduces_points : forall q, 1 < q -> forall pts f, int
 Proof. exact interpolate_sound. Qed.
 Print Assumptions C09_interpolate_reproduces_points.
 
+(* ... for pairwise distinct abscissae modulo a prime it does return true, and it returns false as soon as an
+   abscissa collides with an earlier one *)
+Theorem C09_interpolate_succeeds : forall q, prime q -> forall pts, pts <> [] ->
+  (forall pre a b post, pts = pre ++ (a, b) :: post -> fresh q a pre) ->
+  exists f, interpolate pts q = IpOk f.
+Proof. exact interpolate_complete. Qed.
+Print Assumptions C09_interpolate_succeeds.
+
+Theorem C09_interpolate_collision_false : forall q, prime q -> forall pre post a b a' b',
+  In (a', b') pre -> (a - a') mod q = 0 -> interpolate (pre ++ (a, b) :: post) q = IpFalse.
+Proof. exact interpolate_collision. Qed.
+Print Assumptions C09_interpolate_collision_false.
+
 (* non-vacuity *)
 Example C09_nonvacuous_spowm : spowm 2 7 7 = Ok 2 /\ spowm 2 3 9 = Ok 8 /\ spowm 3 (-2) 7 = Ok 4.
 Proof. repeat split; reflexivity. Qed.
